@@ -9,7 +9,14 @@ Tie
              (Z, charge, radical, neighbours, H, exocyclic double bond) on two ring templates;
        prep  the whole of `__prepare_rings` (skeleton, both repairs of mis-drawn rings, degree / quinone checks,
              pyrroles / double_bonded sets, InvalidAromaticRing) given the implementation's `sssr`;
-       fix   the patch loop of `__fix_rings` given the mappings the matcher yielded (recorded by wrapping the queries).
+       fix   the patch loop of `__fix_rings` given the mappings the matcher yielded (recorded by wrapping the queries);
+       ks    `_kekule_component`, the backtracking bond-assignment search (Model/C05Search.lean: well-founded recursion, no
+             fuel): the yielded paths verbatim and the way the generator ends, on every distinct call the conversions of the
+             run made (recorder around the module-level function), on every component with <= 4/5 atoms x every labeling,
+             and on sampled larger / ill-formed components; Props §6 proves termination (measure) for all inputs and
+             soundness (every yield is a perfect matching of the non-double_bonded atoms, every bond assigned once) for all
+             prepared components without ambiguous atoms; soundness with ambiguous atoms, completeness and no-duplicates
+             are stated in Lean and evaluated against an independent enumeration of all matchings.
   R  the implementation's actual outputs are sent to Lean checkers whose soundness is proved in Props/C05.lean:
        kekn  `checkKekule (normalise a) (kekule a)` ∧ `checkMatching` (new double bonds are a perfect matching of the
              acceptor atoms and avoid the fixed-single atoms) for kekule() and for every enumerated form;
@@ -26,8 +33,11 @@ from .. import core, molgen, wire
 from ..gen import gen_aromrules
 
 LEVEL = 'translation_validation'
-LEVEL_TEXT = ('The bond-assignment search of kekule() is a heuristic with many correct answers (any Kekulé structure) and '
-              'thiele() has a numbering-sensitive tautomer step, so each actual output is certified run by run by Lean checkers '
+LEVEL_TEXT = ('The bond-assignment search of kekule() (many correct answers: any Kekulé structure) is modelled exactly '
+              '(Model/C05Search.lean, output equality with the real generator on every call of the run and on all small '
+              'components) with termination proved for all inputs and soundness proved for all prepared components without '
+              'ambiguous atoms; independently of that model, and because thiele() has a numbering-sensitive tautomer step, '
+              'each actual output is certified run by run by Lean checkers '
               '(`checkKekule`, `checkMatching`, `checkThiele`) whose soundness w.r.t. the declarative relations of '
               'Spec/Kekule.lean (same skeleton, aromatic bonds localised to 1/2, nothing else changed, hydrogens preserved and '
               'equal to what the C04 valence model computes, new double bonds a perfect matching of the acceptor atoms) is '
@@ -43,7 +53,7 @@ LEVEL_NOTE = ('Lean kernel; hand-written models Model/C05Kekule.lean validated b
               'text; Spec/Kekule.lean written from the property text; C04 valence model (Model/Valence.lean over the regenerated '
               'periodic table) as the meaning of "no valence error"; `sssr` (C06) and `get_mapping` (C07) outputs are taken '
               'as inputs; wire encoder; gen_aromrules translator; CachedMethods shim.')
-TECHNIQUE = 'Lean 4 proved checkers on the implementation\'s Kekulé / aromatic outputs + exact functional models of the classification, ring preparation and rule patching, differential line protocol'
+TECHNIQUE = 'Lean 4 proved checkers on the implementation\'s Kekulé / aromatic outputs + exact functional models of the classification, ring preparation, rule patching and the backtracking search (well-founded recursion, invariant proof of soundness), differential line protocol'
 RULE = ('one case = one request line: a molecule in a concrete numbering / dict order (wire ints) together with the '
         'implementation\'s actual output for one conversion (kekule, every enumerated Kekulé form (<= 48), thiele with and without '
         'tautomer fixing, second applications, the same after a random renumbering), or one row of a decision table. Molecules: '
@@ -56,7 +66,12 @@ RULE = ('one case = one request line: a molecule in a concrete numbering / dict 
         'checks, wild palette for the functional streams only); a molecule case is non-trivial when the molecule has at least one '
         'aromatic or aromatised ring; distinct by full request line. Decision tables (every row non-trivial): classification of '
         '__prepare_rings over (Z in 12 elements, charge -2..2, radical, neighbours 2..5, H in None/0..3, exocyclic double bond, '
-        'plain / ring-fusion template) = 6000 rows; thiele ring eligibility over 3024 monocyclic templates.')
+        'plain / ring-fusion template) = 6000 rows; thiele ring eligibility over 3024 monocyclic templates. Search cases '
+        '(`ks`): one case = one call of _kekule_component (component dict in its order, double_bonded with its first element, '
+        'pyrroles, buffer_size): the distinct calls recorded from the conversions of the run, every connected degree-2/3 graph '
+        'on <= 4 (quick) / 5 (thorough) atoms x all 4^n labelings x buffer 0/7, sampled renumbered 5-/6-atom components and '
+        'random ring-system-like graphs incl. ill-formed ones. pi complexes: 24 arene / Cp / hetero-arene cores x coordinated '
+        'atom sets x 4 metals x aromatic and Kekulé forms.')
 TRUSTED = ['harness/wire.py molecule encoder and the canonicalisers of harness/props/c05.py',
            'Spec/Kekule.lean relations as the meaning of the clauses; Spec/AromaticAtoms.lean reference table',
            'Model/Valence.lean (C04) as the meaning of "hydrogen count follows the valence rules"',
